@@ -595,6 +595,16 @@ func verifyBlock(blk *consensusAPI.Block, lb *cmttypes.LightBlock) error {
 	if !bytes.Equal(lastCommit.Hash(), lb.LastCommitHash) {
 		return fmt.Errorf("mismatched block meta last commit")
 	}
+	// The commit hash only covers the signatures, so bind the height and the block identifier of
+	// a non-empty commit (the first block carries an empty one) to the verified header as well.
+	if len(lastCommit.Signatures) > 0 {
+		if lastCommit.Height != lb.Height-1 {
+			return fmt.Errorf("mismatched block meta last commit height")
+		}
+		if !lastCommit.BlockID.Equals(lb.LastBlockID) {
+			return fmt.Errorf("mismatched block meta last commit block identifier")
+		}
+	}
 
 	return nil
 }
